@@ -292,18 +292,18 @@ def _leapfrog_structure(vc, method, bounded_):
                and out[0].role == "t" and out[1] is r)
 
 
-@contract("C07", "standard_leapfrog_structure", native=False)
+@contract("C07", "standard_leapfrog_structure", native=False, replay_with="trajectory_native")
 def standard_leapfrog_structure(vc):
     _leapfrog_structure(vc, "standard_leapfrog", False)
 
 
-@contract("C07", "bounded_leapfrog_structure", native=False)
+@contract("C07", "bounded_leapfrog_structure", native=False, replay_with="trajectory_native")
 def bounded_leapfrog_structure(vc):
     _leapfrog_structure(vc, "bounded_leapfrog", True)
 
 
 # ---- mass classes: linear velocity map, momentum law, kinetic energy -------------------------------------------------
-@contract("C07", "diagonal_mass", native=False)
+@contract("C07", "diagonal_mass", native=False, replay_with="trajectory_native")
 def diagonal_mass(vc):
     from pyvc.objlist import RngModel
     d = vc.int("d", lo=1)
@@ -337,7 +337,7 @@ def diagonal_mass(vc):
     vc.ensures("kinetic_energy_is_half_r_Minv_r", ke == 0.5 * vc.sum(d, lambda i: r[i] * inv_at(i) * r[i]))
 
 
-@contract("C07", "mass_dispatch", native=False)
+@contract("C07", "mass_dispatch", native=False, replay_with="trajectory_native")
 def mass_dispatch(vc):
     """get_particle_mass: scalar -> ScalarMass, 1-d array -> VectorMass"""
     d = vc.int("d", lo=1)
@@ -349,7 +349,7 @@ def mass_dispatch(vc):
 
 
 # ---- wall map used by the bounded integrator ---------------------------------------------------------------------------
-@contract("C07", "reflect_momenta", native=False)
+@contract("C07", "reflect_momenta", native=False, replay_with="trajectory_native")
 def reflect_momenta(vc):
     n = vc.int("n", lo=1)
     lower = vc.vector("lower", n)
@@ -414,7 +414,7 @@ class FdLoop(LoopSpec):
                               lambda j: S.And(lo.at(j) <= snap.at(j), snap.at(j) <= up.at(j)))
 
 
-@contract("C07", "finite_diff", native=False)
+@contract("C07", "finite_diff", native=False, replay_with="trajectory_native")
 def finite_diff(vc):
     import ast
     from pyvc.objlist import PosteriorGhost, F, as_array
@@ -447,7 +447,7 @@ def finite_diff(vc):
     vc.call(chain, "finite_diff", t)
 
 
-@contract("C07", "matrix_mass", native=False)
+@contract("C07", "matrix_mass", native=False, replay_with="trajectory_native")
 def matrix_mass(vc):
     d = vc.int("d", lo=2)
     inv = vc.matrix("inv_mass", d, d)
